@@ -490,13 +490,22 @@ func readContractFile(path string, pkgPath string) (*ContractFile, error) {
 				}
 			case "profile":
 				f := strings.SplitN(rc.text, " ", 3)
+				free := false
+				if len(f) == 3 && f[1] == "free" {
+					free = true
+					g := strings.SplitN(strings.TrimSpace(f[2]), " ", 2)
+					if len(g) == 2 {
+						f = []string{f[0], g[0], g[1]}
+					}
+				}
 				if len(f) != 3 || (f[1] != "requires" && f[1] != "ensures") {
-					return nil, fail(rc, "profile <name> requires|ensures expr")
+					return nil, fail(rc, "profile <name> [free] requires|ensures expr")
 				}
 				c, err := mkClause(rc, strings.TrimSpace(f[2]))
 				if err != nil {
 					return nil, err
 				}
+				c.Free = free
 				c.Profile = f[0]
 				if f[1] == "requires" {
 					cur.Requires = append(cur.Requires, c)
